@@ -453,6 +453,14 @@ func oracle(res *hx.Result, in c16Input, ob *observed) {
 			if miss {
 				res.Fail("begin-failure-no-rollback-fanout", desc, in)
 			}
+			// nothing may stay begun: SOP's transaction has been ended by that Rollback; participants
+			// from the failing one on never began and get no other call while Begin runs
+			if ob.HasBegun {
+				res.Fail("begin-failure-leaves-sop-begun", desc, in)
+			}
+			if count(pre, func(e evt) bool { return e.Who >= l[bf].Who }) != 1 {
+				res.Fail("begin-failure-calls-unbegun-participant", desc, in)
+			}
 		} else {
 			res.Count("fail-position.sop.B")
 			if count(l[:ob.beginLen], func(e evt) bool { return e.Who >= 0 }) > 0 {
@@ -674,7 +682,8 @@ func runC16(cfg *hx.RunCfg) (*hx.Result, error) {
 		seen[string(k)] = true
 		firstErr = c16Session(ctx, res, in)
 	}
-	// corpus: the known finding first (a participant's Begin fails after SOP and participant 0 have begun)
+	// corpus: a participant's Begin fails after SOP and participant 0 have begun (the repaired defect
+	// begin-failure-no-rollback-fanout: every run must see the fan-out)
 	in, _ := mk(2, "commit", false, position{who: 1, op: "B"})
 	emit(in)
 	in, _ = mk(1, "commit", false)
